@@ -1,3 +1,5 @@
+import numpy as np
+
 """C08, allocator sentence: alloc/free histories on kyupy.sim.Heap against RefHeap (a set of live intervals
 plus a running high-water mark).  No allocation policy is assumed."""
 
@@ -77,7 +79,7 @@ def gen_history(rng, tier):
                 ops.append(['fa', rng.randrange(1 << 16)]); live -= 1
     if rng.random() < 0.5:  # drain completely at the end
         for _ in range(live): ops.append([rng.choice(['fo', 'fa']), rng.randrange(1 << 16)])
-    return {'mode': 'heap', 'shape': shape, 'ops': ops}
+    return {'mode': 'heap', 'shape': shape, 'ops': ops, 'size_dtype': rng.choice(['int', 'int', 'int64', 'uint32', 'uint16'])}
 
 
 def check_tables(h, ref, res, step):
@@ -132,7 +134,8 @@ def execute_history(case, res):
         if kind == 'a':
             size = int(arg)
             n_free_before = len(h.released)
-            loc = int(h.alloc(size))
+            dt = case.get('size_dtype', 'int')
+            loc = int(h.alloc(size if dt == 'int' else getattr(np, dt)(size)))      # sizes may arrive as numpy scalars (capacity vectors)
             res.log.add('a', size, loc)
             res.count('heap_steps')
             # disjoint from all live regions
